@@ -89,6 +89,19 @@ def c03 (o : Obs) (nodeOk : Bool) : Option String :=
   | q :: _ => some s!"C03.req_names_eq_interest: {repr q.rt} request lists {q.names}, interest set is {o.interest q.rt}"
   | [] => none
 
+/-- C03 on a burst of misses while the connection was stalled: request number `i` of the type lists exactly the first
+`i` missed names on top of what was subscribed before (the interest set current when it was built), and none is lost -/
+def c03burst (pre o : Obs) (rt : RType) (names : List String) (nodeOk : Bool) : Option String :=
+  if !nodeOk then some "C03: a request does not identify the node" else
+  let base := (pre.interest rt).getD []
+  let qs := o.reqs.filter (fun q => q.rt = rt)
+  if qs.length ≠ names.length then
+    some s!"C03.each_change_requested: {names.length} lookups missed distinct names, {qs.length} requests reached the control plane"
+  else
+    match (List.range qs.length).filter (fun i => (qs.getD i default).names ≠ sortStr (base ++ names.take (i + 1))) with
+    | i :: _ => some s!"C03.req_names_eq_interest: request {i + 1} of the burst lists {(qs.getD i default).names.length} names, the interest set had {base.length + i + 1} when it was built"
+    | [] => none
+
 /-- C03 (quiescence): the last request of each watched type on the live stream equals the interest set -/
 def c03quiescent (o : Obs) (lastOnLive : RType → Option (List String)) : Option String :=
   match RType.all.filter (fun rt => (o.interest rt).isSome && lastOnLive rt ≠ o.interest rt) with
@@ -118,6 +131,35 @@ def c04reconnect (pre o : Obs) (newSid : Nat) : Option String :=
     match onNew.filter (fun q => some q.names ≠ pre.interest q.rt || q.version ≠ (pre.ver q.rt).1 || q.nonce ≠ "" || q.err) with
     | q :: _ => some s!"C04.resubscribe_on_adopt: {repr q.rt}: names {q.names} version {q.version} nonce '{q.nonce}'; expected the full interest set {pre.interest q.rt}, version {(pre.ver q.rt).1}, empty nonce"
     | [] => if onNew.length = watched.length then none else some "C04.resubscribe_on_adopt: request of a type that is not watched"
+
+/-- C04 on a stream failure racing lookups: on the new stream the first |watched| requests are the re-subscription (one
+per watched type, every subscribed name, accepted version, empty nonce); whatever follows lists the interest set and
+carries no nonce of the old stream; nothing is sent on the dead stream -/
+def c04stalled (pre o : Obs) (newSid : Nat) : Option String :=
+  if sortStr ((pre.cache .cds).map (fun e => e.1 ++ "=" ++ e.2)) != sortStr ((o.cache .cds).map (fun e => e.1 ++ "=" ++ e.2)) then
+    some "C04.cache_survives: the stream failure changed the cache" else
+  let watched := RType.all.filter (fun rt => (o.interest rt).isSome)
+  let onNew := o.reqs.filter (fun q => q.sid = newSid)
+  let batch := onNew.take watched.length
+  let rest := onNew.drop watched.length
+  match watched.filter (fun rt => (batch.filter (fun q => q.rt = rt)).length ≠ 1) with
+  | rt :: _ => some s!"C04.resubscribe_on_adopt: {repr rt}: the first {watched.length} requests on the new stream are not one per watched type"
+  | [] =>
+    match batch.filter (fun q => some q.names ≠ o.interest q.rt || q.version ≠ (pre.ver q.rt).1 || q.nonce ≠ "" || q.err) with
+    | q :: _ => some s!"C04.resubscribe_on_adopt: {repr q.rt}: names {q.names} version {q.version} nonce '{q.nonce}'; expected the full interest set {o.interest q.rt}, version {(pre.ver q.rt).1}, empty nonce"
+    | [] =>
+      match rest.filter (fun q => q.nonce ≠ "") with
+      | q :: _ => some s!"C04.nonce_per_stream: request on the new stream {q.sid} carries nonce '{q.nonce}', which that stream never issued (it is a nonce of the dead stream)"
+      | [] =>
+        -- the queued requests were built while the lookups missed one after the other: each lists the interest set of
+        -- its moment (a subset of the final one), and the last one lists all of it
+        match rest.filter (fun q => !(q.names.all (fun n => ((o.interest q.rt).getD []).contains n))) with
+        | q :: _ => some s!"C03.req_names_eq_interest: {repr q.rt} request after the reconnect lists {q.names}, not a subset of the interest set {o.interest q.rt}"
+        | [] =>
+          match rest.getLast? with
+          | some q => if some q.names ≠ o.interest q.rt then
+              some s!"C03.quiescent_last_request: the last {repr q.rt} request on the new stream lists {q.names}, interest set is {o.interest q.rt}" else none
+          | none => none
 
 /-- C04: no request carries a nonce that was not issued on its own stream -/
 def c04nonces (o : Obs) (issued : List (Nat × String)) : Option String :=
